@@ -140,6 +140,34 @@ def run(tier, seed, replay=None):
                         "signature_text": f"respell kind={case['kind']} canon={case['canon']} odd={sp_t!r} config={case['config']!r}"})
                     break
 
+        def pattern_case(case):
+            """case: {'kind': redirect|command, 'dirs': spellings of one directory, 'suffix': str, 'decision': str,
+            'target': str, 'verb': str}: the same rule written with differently spelled directories"""
+            cwd = Path(sc.cwd)
+            results = []
+            for d in case["dirs"]:
+                pat = sc.sub(d) + case["suffix"]
+                t = sc.sub(case["target"])
+                if case["kind"] == "redirect":
+                    cfg = C.parse_config(f"{case['decision']}-redirect {pat}")
+                    m = decision(C.match_redirect(t, cfg, cwd))
+                    v = an.analyze(f"echo x > {t}", cfg, cwd).action
+                else:
+                    cfg = C.parse_config(f"{case['decision']} {case['verb']} {pat}")
+                    m = decision(C._match_words([case["verb"], t], cfg, cwd))
+                    v = an.analyze(f"{case['verb']} {t}", cfg, cwd).action
+                results.append((m, v))
+            out.count("pattern-respell", f"{case['kind']}:{results[0][0]}")
+            majority = max(set(results), key=results.count)
+            for d, r in zip(case["dirs"], results):
+                if r != majority:
+                    out.violations.append({
+                        "kind": "pattern-respell", "case": case,
+                        "what": f"{case['kind']} rule {case['decision']} {d + case['suffix']!r} on {case['target']!r} gives {r}; "
+                                f"the other spellings of the same pattern give {majority}",
+                        "signature_text": f"pattern-respell kind={case['kind']} odd={d + case['suffix']!r} target={case['target']!r}"})
+                    break
+
         def confine_case(case):
             """case: {'dir': D spelling, 'target': spelling, 'cwd': placeholder}"""
             D, t, cwd = sc.sub(case["dir"]), sc.sub(case["target"]), sc.sub(case["cwd"])
@@ -188,7 +216,7 @@ def run(tier, seed, replay=None):
                                        "what": f"_glob_match({text!r}, {pat!r}) = {got}; with '*'/'?' confined to one segment it is {want}",
                                        "signature_text": f"one-level pat={pat!r} text={text!r}"})
 
-        ORACLES = {"respell": respell_case, "confine": confine_case, "cwd-rename": rename_case, "one-level": level_case}
+        ORACLES = {"pattern-respell": pattern_case, "respell": respell_case, "confine": confine_case, "cwd-rename": rename_case, "one-level": level_case}
         if replay:
             fn = ORACLES.get(replay.get("kind"))
             if fn and replay.get("case"):
@@ -344,6 +372,24 @@ def run(tier, seed, replay=None):
                 case = {"dir": D, "target": t, "cwd": "@CWD@"}
                 confine_case(case)
                 out.case(case)
+
+        dir_spellings = {
+            "out": ["out", "./out", "@CWD@/out", "../proj/out", "out/deep/..", "@CWD@/./out", ".//out", "src/../out"],
+            "src": ["src", "./src", "@CWD@/src", "../proj/src", "src/lib/..", "@CWD@//src"],
+            "~/n": ["~/n", "@HOME@/n", "~/./n", "~/bin/../n", "~//n"],
+            "/etc": ["/etc", "//etc", "/etc/.", "/./etc", "/tmp/../etc"],
+        }
+        targets_for = {"out": ["out/a", "out/deep/b", "./out/a", "out/new", "src/main.py"], "src": ["src/main.py", "src/lib/x.py", "out/a"],
+                       "~/n": ["~/n/f", "@HOME@/n/f", "~/bin/gh"], "/etc": ["/etc/passwd", "/etc/cron.d/job", "/tmp/x"]}
+        for dname, dsp in dir_spellings.items():
+            for suffix in ("/**", "/*", "/a", "/main.py", "/**/b", "/f", "/passwd"):
+                for t in targets_for[dname]:
+                    for kind in ("redirect", "command"):
+                        if kind == "command" and "**" in suffix:
+                            continue
+                        case = {"kind": kind, "dirs": dsp, "suffix": suffix, "decision": rng.choice(rc.VERDICTS), "target": t, "verb": "cat"}
+                        pattern_case(case)
+                        out.case(case)
 
         rel_cfgs = ["allow-redirect out/*", "allow-redirect out/a", "deny-redirect out/**", "allow-redirect ./out/a", "deny ./danger",
                     "deny ./danger *", "allow cat src/*", "deny cat out/a", "allow-redirect **/a", "ask-redirect src/../out/a"]
